@@ -11,6 +11,7 @@ import (
 	"math"
 	"math/rand"
 	"strconv"
+	"unicode/utf8"
 )
 
 func selfTest() int {
@@ -58,8 +59,28 @@ func selfTest() int {
 		strs = append(strs, string(b))
 	}
 	strs = append(strs, "", "+", "-", "+0", "-0", "007", "00", "+12", "-12", "1_000", "0x10", " 1", "1 ")
+	// numerals of 19..21 digits around the int64 / uint64 limits (range check of strconv)
+	for _, b := range []string{"9223372036854775807", "9223372036854775808", "-9223372036854775808", "-9223372036854775809",
+		"18446744073709551615", "18446744073709551616", "18446744073709551617", "09223372036854775807", "0018446744073709551615",
+		"99999999999999999999", "10000000000000000000", "17999999999999999999", "18000000000000000000", "18446744073709551609",
+		"184467440737095516150", "000000000000000000001", "+9223372036854775807", "1844674407370955161a", "9999999999999999999"} {
+		strs = append(strs, b)
+	}
+	for i := 0; i < 3000; i++ {
+		n := 19 + rng.Intn(3)
+		b := make([]byte, n)
+		for j := range b {
+			b[j] = byte('0' + rng.Intn(10))
+		}
+		if rng.Intn(3) == 0 {
+			copy(b, "1844674407370955")
+		} else if rng.Intn(3) == 0 {
+			copy(b, "922337203685477")
+		}
+		strs = append(strs, string(b))
+	}
 	for _, s := range strs {
-		if len(s) > 18 {
+		if len(s) > 22 {
 			continue
 		}
 		for _, signed := range []bool{true, false} {
@@ -79,7 +100,45 @@ func selfTest() int {
 			bad++
 		}
 	}
-	fmt.Printf("selftest: fmtInt cases=%d parseInt cases=%d failures=%d\n", nfmt, nparse, bad)
+	// UTF-8 decoding over symbolic bytes (range over a string)
+	nutf := 0
+	var seqs [][]byte
+	for _, q := range []string{"a", "\x7f", "\x80", "\xc2\x80", "\xc1\xbf", "\xdf\xbf", "\xe0\xa0\x80", "\xe0\x9f\xbf", "\xed\x9f\xbf", "\xed\xa0\x80",
+		"\xef\xbf\xbd", "\xf0\x90\x80\x80", "\xf0\x8f\xbf\xbf", "\xf4\x8f\xbf\xbf", "\xf4\x90\x80\x80", "\xf5\x80\x80\x80", "\xc3", "\xe2\x82", "\xf0\x9f\x98",
+		"\xc3\x28", "\xe2\x28\xa1", "\xe2\x82\x28", "\xf0\x28\x8c\xbc", "caf\xc3\xa9", "\xe9t\xe9"} {
+		seqs = append(seqs, []byte(q))
+	}
+	for i := 0; i < 20000; i++ {
+		b := make([]byte, 1+rng.Intn(4))
+		for j := range b {
+			switch rng.Intn(4) {
+			case 0:
+				b[j] = byte(rng.Intn(128))
+			case 1:
+				b[j] = byte(0x80 + rng.Intn(64))
+			default:
+				b[j] = byte(0xC0 + rng.Intn(64))
+			}
+		}
+		seqs = append(seqs, b)
+	}
+	for _, q := range seqs {
+		m := Model{}
+		ts := make([]*Term, len(q))
+		for i := range q {
+			ts[i] = Var(fmt.Sprintf("st_u%d_8", i), 8)
+			m[ts[i]] = uint64(q[i])
+		}
+		in := concolicInterp(m)
+		r, sz := in.decodeRuneSym(ts)
+		wr, wsz := utf8.DecodeRune(q)
+		if sz != wsz || uint32(evalTerm(r, m, map[*Term]uint64{})) != uint32(wr) {
+			fmt.Printf("SELFTEST FAIL decodeRune(%x): got (%d,%d) want (%d,%d)\n", q, evalTerm(r, m, map[*Term]uint64{}), sz, wr, wsz)
+			bad++
+		}
+		nutf++
+	}
+	fmt.Printf("selftest: fmtInt cases=%d parseInt cases=%d utf8 cases=%d failures=%d\n", nfmt, nparse, nutf, bad)
 	if bad > 0 {
 		return 1
 	}
